@@ -46,7 +46,7 @@ inductive Label where
   | addOut (n to : Nat)           -- critical section of addOut
   | runInv (n : Nat)              -- critical section of invalidate (+ handler call)
   | rrEnter (r c : Nat)           -- run(): took r.mu, not stopped: computation on fresh node c starts
-  | rrSkip (r : Nat)              -- run(): context cancelled or stop set: returns without running
+  | rrSkip (r : Nat)              -- run(): context cancelled (seen before taking r.mu) or stop set: returns without running
   | rrExitOk (r : Nat)            -- run returned: install computation, handleInvalidate, unlock
   | rrExitFail (r : Nat)          -- run returned an error: rerunner stops for good
   | rrExitRetry (r : Nat)         -- RetrySentinelError: `go r.run()`
@@ -101,7 +101,7 @@ def step (s : St) : Label → Option St
       else none
   | .rrSkip r =>
       let x := getRr s r
-      if r < s.rrs.length ∧ r ∈ s.pendingRun ∧ x.inRun = none ∧ (x.cancelled || x.stopped || x.failed) then
+      if r < s.rrs.length ∧ r ∈ s.pendingRun ∧ (x.cancelled || x.stopped || x.failed) then
         some { setRr s r { x with skipped := x.skipped + 1 } with pendingRun := s.pendingRun.erase r }
       else none
   | .rrExitOk r =>
